@@ -53,7 +53,12 @@ from django_components.dependencies import (
     set_component_attrs_for_js_and_css,
 )
 from django_components.node import BaseNode
-from django_components.perfutil.component import ComponentRenderer, component_context_cache, component_post_render
+from django_components.perfutil.component import (
+    ComponentRenderer,
+    cleanup_failed_render,
+    component_context_cache,
+    component_post_render,
+)
 from django_components.perfutil.provide import register_provide_reference, unregister_provide_reference
 from django_components.provide import get_injected_context_var
 from django_components.slots import (
@@ -967,17 +972,23 @@ class Component(
         render_dependencies: bool = True,
         request: Optional[HttpRequest] = None,
     ) -> str:
+        render_id = gen_id()
+
         # Modify the error to display full component path (incl. slots)
         with component_error_message([self.name]):
             try:
                 return self._render_impl(
-                    context, args, kwargs, slots, escape_slots_content, type, render_dependencies, request
+                    render_id, context, args, kwargs, slots, escape_slots_content, type, render_dependencies, request
                 )
             except Exception as err:
+                # The entries in the render-time caches are normally removed when the component's (deferred)
+                # rendering finishes. That is never going to happen now, so we remove them here.
+                cleanup_failed_render(render_id, unregister_provide_reference)
                 raise err from None
 
     def _render_impl(
         self,
+        render_id: str,
         context: Optional[Union[Dict[str, Any], Context]] = None,
         args: Optional[ArgsType] = None,
         kwargs: Optional[KwargsType] = None,
@@ -1015,7 +1026,6 @@ class Component(
         # This is handled as a stack, as users can potentially call `component.render()`
         # from within component hooks. Thus, then they do so, `component.id` will be the ID
         # of the deepest-most call to `component.render()`.
-        render_id = gen_id()
         metadata = MetadataItem(
             render_id=render_id,
             input=RenderInput(
